@@ -67,9 +67,9 @@ Lt(b) == [t |-> "lit", b |-> b]
 St(b) == [t |-> "str", b |-> b]
 SA(v) == [t |-> "arr", v |-> v]
 SO(k, v) == [t |-> "obj", k |-> k, v |-> v]
-S1 == {Lt(<<110, 117, 108, 108>>), Lt(<<116, 114, 117, 101>>), Lt(<<49, 50>>), Lt(<<45, 48, 46, 53, 101, 49>>), St(<<97, 92, 110>>), SA(<<>>), SO(<<>>, <<>>)}
+S1 == {Lt(<<116, 114, 117, 101>>), Lt(<<49, 50>>), Lt(<<45, 48, 46, 53, 101, 49>>), St(<<97, 92, 110>>), SA(<<>>)}
 S2 == S1 \cup {SA(<<a, b>>) : a, b \in S1} \cup {SO(<< <<97>>, <<97>> >>, <<a, b>>) : a, b \in S1} \cup {SO(<< <<>> >>, <<SA(<<a>>)>>) : a \in S1}
-Texts == {Render(v, lay) : v \in S2, lay \in {0, 1}} \cup {RenderDocs(<<a, b>>, lay, tg) : a, b \in S1, lay \in {0, 2}, tg \in BOOLEAN}
+Texts == {Render(v, lay) : v \in S2, lay \in {0, 1}} \cup {RenderDocs(<<a, b>>, 0, tg) : a, b \in S1, tg \in BOOLEAN} \cup {RenderDocs(<<a, SO(<<>>, <<>>)>>, 2, FALSE) : a \in S1}
 SameEv(a, b) == a.k = b.k /\ (a.k \in {"num", "string", "key"} => a.d = b.d)
 SameEvs(as, bs) == Len(as) = Len(bs) /\ \A i \in 1..Len(as) : SameEv(as[i], bs[i])
 IsPrefixEv(as, bs) == Len(as) <= Len(bs) /\ \A i \in 1..Len(as) : SameEv(as[i], bs[i])
@@ -83,16 +83,16 @@ TextLaw(x) ==
      /\ \A k \in 0..(Len(x) - 1) :
           LET m == [t |-> "cut", k |-> k]
               y == Mut(x, m)
-              df == Definite(x, m)
-              pt == Partial(x, m)
+              df == Definite(ev, m)
+              pt == Partial(ev, m)
           IN /\ FirstDead(y) = 0
              /\ RunK(Kinds(df)) # BadStk
              /\ Len(pt) <= 1
              /\ MValid(y) => LET ey == EventTokens(y) IN
                              /\ IsPrefixEv(df, ey) /\ Len(ey) <= Len(df) + 1
                              /\ Len(ey) = Len(df) + 1 => (pt # <<>> /\ pt[1].k = "num" /\ ey[Len(ey)].k = "num")
-     /\ \A k \in 1..Len(x) : \A b \in {125, 93, 58, 44} :
-          LET m == [t |-> "swap", k |-> k, b |-> b] IN SwapOK(x, m) => FirstDead(Mut(x, m)) = k
+     /\ \A i \in 1..Len(ts) : \A b \in {125, 93, 58, 44} :
+          LET m == [t |-> "swap", k |-> ts[i].s, b |-> b] IN SwapOK(<<ts[i]>>, m) => FirstDead(Mut(x, m)) = m.k
 TextLaws == \A x \in Texts : TextLaw(x)
 ASSUME Complete /\ Injective /\ Necessary
 ASSUME TextLaws
